@@ -101,13 +101,22 @@ def r7_2(ctx):
     ew = c.method("_extra_width")
     if ew is None:
         raise AnchorVanished("Table._extra_width not found")
-    adds: Dict[str, str] = {}
-    for n in walk_local(ew.node):
-        if isinstance(n, ast.If):
-            for b in n.body:
-                if isinstance(b, ast.AugAssign) and isinstance(b.op, ast.Add):
-                    adds[norm(n.test)] = norm(b.value)
-    ok = adds.get("self.box and self.show_edge") == "2" and adds.get("self.box") == "len(self.columns) - 1" and len(adds) == 2
+    # decided per path: the value returned under every combination of (box, show_edge), as a linear form
+    from ..linear import eq as _leq, lin as _lin, show as _show
+    from ..yieldpaths import consistent
+    from .common import return_forms
+    forms = return_forms(ew)
+    adds = {}
+    ok = bool(forms)
+    for scen, want in (({"self.box": False}, {}), ({"self.box": True, "self.show_edge": True}, {"len(self.columns)": 1, "": 1}), ({"self.box": True, "self.show_edge": False}, {"len(self.columns)": 1, "": -1})):
+        sel = [(fa, v) for fa, v in forms if consistent(tuple(("cond", k, tv) for k, tv in fa.items()), scen)]
+        if not sel:
+            ok = False
+        for fa, v in sel:
+            got = _lin(v)
+            adds[str(scen)] = _show(got)
+            if not _leq(got, want):
+                ok = False
     ctx.check(ok, ew.fq, str(adds), ew.where, "+2 under box and show_edge; +(n-1) under box", f"_extra_width accounts {adds}: not `2 if box and show_edge` plus `columns-1 if box`; the width budget no longer matches the border cells emitted")
     f = ctx.repo.fn("table:Table._render")
     m = f.module
